@@ -200,6 +200,7 @@ def gen_bodies(shapes, n, seed, mode="simulate", depth=120, timeout=600, procs=N
                 if key not in seen:
                     seen.add(key)
                     bodies.append(r)
+        bodies.sort(key=repr)
         return bodies, {"states": gen, "transitions": gen}
     finally:
         shutil.rmtree(wd, ignore_errors=True)
